@@ -278,7 +278,7 @@ func (st *c15State) runIter(rd *c15Reader, prefixMode bool) {
 
 func (st *c15State) pickReader() *c15Reader {
 	// a fresh reader on the current state or one of the held ones
-	if len(st.readers) > 0 && rapid.Bool().Draw(st.t, "useHeld") {
+	if len(st.readers) > 0 && rapid.IntRange(0, 3).Draw(st.t, "useHeld") != 0 {
 		return st.readers[rapid.IntRange(0, len(st.readers)-1).Draw(st.t, "reader")]
 	}
 	return nil
@@ -334,7 +334,7 @@ func c15Property(t *rapid.T, name string, ev *Collector, multiGet bool) {
 	}()
 	var trace []interface{}
 	maxReaders := 3
-	t.Repeat(map[string]func(*rapid.T){
+	actions := map[string]func(*rapid.T){
 		"batch": func(t *rapid.T) {
 			n := rapid.IntRange(1, 8).Draw(t, "nops")
 			var ops []kvOp
@@ -506,7 +506,12 @@ func c15Property(t *rapid.T, name string, ev *Collector, multiGet bool) {
 				t.Fatalf("%s full scan keys %q, model %q", name, got, want)
 			}
 		},
-	})
+	}
+	// weights: writes and reader acquisition twice as likely as the other actions, so
+	// that held readers are usually queried after later batches
+	actions["batch2"] = actions["batch"]
+	actions["openReader2"] = actions["openReader"]
+	t.Repeat(actions)
 	nt := st.staleRead > 0 && st.seeks > 0
 	var classes []string
 	add := func(c bool, n string) {
